@@ -307,7 +307,7 @@ template <int D> struct RecCtx {
     std::vector<std::pair<std::string, std::string>> violations;
     std::map<std::string, long long> counters;
     // access log for O-dag: per task id, objects read / written (cell-granular addresses)
-    struct Access { long task; const void* obj; bool write; int kind; };
+    struct Access { long task; const void* obj; bool write; int kind; int op; };
     std::vector<Access> accesses;
     bool logAccesses = false;
     // calls per op
@@ -318,7 +318,7 @@ template <int D> struct RecCtx {
         if (violations.size() < 64) violations.emplace_back(key, detail);
     }
     long task() { return currentTask ? currentTask() : -1; }
-    void access(const void* o, bool w, int kind) { if (logAccesses) accesses.push_back({task(), o, w, kind}); }
+    void access(const void* o, bool w, int kind, int op) { if (logAccesses) accesses.push_back({task(), o, w, kind, op}); }
 };
 
 template <class Inner, int D>
@@ -398,8 +398,8 @@ public:
             if (it == ctx->multipoles.end()) ctx->fail("unknown-object:P2M", "multipole not in tree");
             else if (it->second.level != ctx->height - 1 || it->second.coord != vm::tov<D>(hc(hdr))) ctx->fail("wrong-object:P2M", "multipole of another cell");
             if (ctx->record) ctx->elems.push_back({vm::OP_P2M, ctx->height - 1, vm::tov<D>(hc(hdr)), {}, 0});
-            ctx->access(&m, true, 0);
-            ctx->access(idx, false, 3);
+            ctx->access(&m, true, 0, vm::OP_P2M);
+            ctx->access(idx, false, 3, vm::OP_P2M);
         }
         inner.P2M(hdr, idx, data, n, m);
     }
@@ -435,14 +435,14 @@ public:
                     if (pos[k] < 0 || pos[k] >= (1L << D)) ctx->fail("child-code-range:M2M", "code " + vh::str(pos[k]));
                     else if (pos[k] != vm::octantCode<D>(c)) ctx->fail(ctx->hilbert ? "hilbert:child-code-is-octant:M2M" : "child-code:M2M", "code " + vh::str(pos[k]) + " child " + vh::astr(cc));
                     if (ctx->record) ctx->elems.push_back({vm::OP_M2M, level, vm::tov<D>(hc(hdr)), cc, pos[k]});
-                    ctx->access(a, false, 0);
+                    ctx->access(a, false, 0, vm::OP_M2M);
                 }
             } else {
                 if (level < 0 || level > ctx->topHeight - 2) ctx->fail("top-level-range:M2M", "level " + vh::str(level));
                 for (long k = 0; k < n; ++k) if (pos[k] < 0 || pos[k] >= (1L << D)) ctx->fail("child-code-range:M2M", "code " + vh::str(pos[k]));
                 if (ctx->record) for (long k = 0; k < n; ++k) ctx->elems.push_back({vm::OP_M2M, level, {}, {}, pos[k]});
             }
-            ctx->access(&up, true, 0);
+            ctx->access(&up, true, 0, vm::OP_M2M);
         }
         inner.M2M(hdr, level, ch, up, pos, n);
     }
@@ -483,7 +483,7 @@ public:
                     }
                     if (!okOff) ctx->fail("rel-code:M2L", "code decodes to " + vh::astr(o) + " src " + vh::astr(sit->second.coord) + " tgt " + vh::astr(hdr.boxCoord));
                     if (ctx->record) ctx->elems.push_back({vm::OP_M2L, level, vm::tov<D>(hc(hdr)), sit->second.coord, pos[k]});
-                    ctx->access(a, false, 0);
+                    ctx->access(a, false, 0, vm::OP_M2L);
                 }
             } else {
                 if (level < 0 || level > ctx->topHeight - 2) ctx->fail("top-level-range:M2L", "level " + vh::str(level));
@@ -494,7 +494,7 @@ public:
                     if (ctx->record) ctx->elems.push_back({vm::OP_M2L, level, {}, {}, pos[k]});
                 }
             }
-            ctx->access(&loc, true, 1);
+            ctx->access(&loc, true, 1, vm::OP_M2L);
         }
         inner.M2L(hdr, level, src, pos, n, loc);
     }
@@ -530,7 +530,7 @@ public:
                     if (pos[k] < 0 || pos[k] >= (1L << D)) ctx->fail("child-code-range:L2L", "code " + vh::str(pos[k]));
                     else if (pos[k] != vm::octantCode<D>(c)) ctx->fail(ctx->hilbert ? "hilbert:child-code-is-octant:L2L" : "child-code:L2L", "code " + vh::str(pos[k]) + " child " + vh::astr(cc));
                     if (ctx->record) ctx->elems.push_back({vm::OP_L2L, level, vm::tov<D>(hc(hdr)), cc, pos[k]});
-                    ctx->access(a, true, 1);
+                    ctx->access(a, true, 1, vm::OP_L2L);
                 }
             } else {
                 if (level < 0 || level > ctx->topHeight - 2) ctx->fail("top-level-range:L2L", "level " + vh::str(level));
@@ -547,7 +547,7 @@ public:
                     if (ctx->record) ctx->elems.push_back({vm::OP_L2L, level, {}, {}, pos[k]});
                 }
             }
-            ctx->access(&up, false, 1);
+            ctx->access(&up, false, 1, vm::OP_L2L);
         }
         inner.L2L(hdr, level, up, ch, pos, n);
     }
@@ -564,8 +564,8 @@ public:
             if (it == ctx->locals.end()) ctx->fail("unknown-object:L2P", "local not in tree");
             else if (it->second.level != ctx->height - 1 || it->second.coord != vm::tov<D>(hc(hdr))) ctx->fail("wrong-object:L2P", "local of another cell");
             if (ctx->record) ctx->elems.push_back({vm::OP_L2P, ctx->height - 1, vm::tov<D>(hc(hdr)), {}, 0});
-            ctx->access(&loc, false, 1);
-            ctx->access(&rhs[0][0], true, 2);
+            ctx->access(&loc, false, 1, vm::OP_L2P);
+            ctx->access(&rhs[0][0], true, 2, vm::OP_L2P);
         }
         inner.L2P(hdr, loc, idx, data, rhs, n);
     }
@@ -597,8 +597,8 @@ public:
             checkParticles(0, sh, sidx, sdata, ns, "P2P"); checkParticles(0, th, tidx, tdata, nt, "P2P");
             checkNeighbor(sh, th, code, false, "P2P");
             if (ctx->record) ctx->elems.push_back(vm::canonP2P<D>(ctx->height - 1, hc(th), hc(sh), vm::decode3<D>(code)));
-            ctx->access(&trhs[0][0], true, 2);
-            ctx->access(&srhs[0][0], true, 2);
+            ctx->access(&trhs[0][0], true, 2, vm::OP_P2P);
+            ctx->access(&srhs[0][0], true, 2, vm::OP_P2P);
         }
         inner.P2P(sh, sidx, sdata, srhs, ns, th, tidx, tdata, trhs, nt, code);
     }
@@ -614,7 +614,7 @@ public:
             checkParticles(0, sh, sidx, sdata, ns, "P2PTsm"); checkParticles(1, th, tidx, tdata, nt, "P2PTsm");
             checkNeighbor(sh, th, code, true, "P2PTsm");
             if (ctx->record) ctx->elems.push_back({vm::OP_P2PTSM, ctx->height - 1, vm::tov<D>(hc(th)), vm::tov<D>(hc(sh)), code});
-            ctx->access(&trhs[0][0], true, 2);
+            ctx->access(&trhs[0][0], true, 2, vm::OP_P2PTSM);
         }
         inner.P2PTsm(sh, sidx, sdata, ns, th, tidx, tdata, trhs, nt, code);
     }
@@ -628,7 +628,7 @@ public:
             checkHeader(hdr, ctx->height - 1, "P2PInner");
             checkParticles(0, hdr, idx, data, n, "P2PInner");
             if (ctx->record) ctx->elems.push_back({vm::OP_P2PINNER, ctx->height - 1, vm::tov<D>(hc(hdr)), {}, 0});
-            ctx->access(&rhs[0][0], true, 2);
+            ctx->access(&rhs[0][0], true, 2, vm::OP_P2PINNER);
         }
         inner.P2PInner(hdr, idx, data, rhs, n);
     }
